@@ -66,18 +66,35 @@ class CondModel:
     def active(self):
         return all(f[2] for f in self.frames)
 
+    LIT = r"\$[0-9a-fA-F]+|0x[0-9a-fA-F]+|\b[0-9a-fA-F]+H\b|%[01]+|\bb[01]+\b|\b\d+\b"
+
+    @staticmethod
+    def lit_value(t):
+        if t.startswith('$'):
+            return int(t[1:], 16)
+        if t.startswith('0x'):
+            return int(t[2:], 16)
+        if t.endswith('H'):
+            return int(t[:-1], 16)
+        if t.startswith('%') or t.startswith('b'):
+            return int(t[1:], 2)
+        return int(t)
+
     def expand(self, text, stack=()):
-        """lazy, textual, whole-word expansion of symbols at the moment of evaluation"""
+        """lazy, textual, whole-word expansion of symbols at the moment of evaluation; numeric literals in every
+        supported notation are converted to decimal on the way"""
         import re
 
         def repl(m):
-            w = m.group(0)
+            if m.group(1) is not None:
+                return str(self.lit_value(m.group(1)))
+            w = m.group(2)
             if w in self.symbols:
                 if w in stack or len(stack) > 8 or self.symbols[w] in (None, ''):
                     raise KeyError(w)
                 return self.expand(self.symbols[w], stack + (w,))
             raise KeyError(w)
-        return re.sub(r'[A-Za-z_]\w*', repl, str(text))
+        return re.sub(f'({self.LIT})|([A-Za-z_]\\w*)', repl, str(text))
 
     def num(self, text):
         import re
@@ -430,7 +447,8 @@ def make_machine(stats, box):
 
     sym = st.sampled_from(SYMS)
     small = st.integers(min_value=0, max_value=9)
-    term = st.one_of(sym, small)
+    special = st.sampled_from(['$F0', '$1f', '0x2A', '%1010', 'b110', 'FFH', '0AH', '$A', 'CH'])
+    term = st.one_of(sym, sym, small, small, special)
 
     @st.composite
     def cond(draw):
@@ -524,7 +542,7 @@ def make_machine(stats, box):
             self.do({'op': 'endif'})
 
         @rule(name=sym, value=st.one_of(st.none(), small, small, st.tuples(sym, small).map(lambda t: f'{t[0]}+{t[1]}'),
-                                        sym))
+                                        sym, special))
         def define(self, name, value):
             self.do({'op': 'define', 'name': name, 'value': value})
 
@@ -572,6 +590,36 @@ def make_machine(stats, box):
             self.marker_()
             self.do({'op': 'endif'})
             self.do({'op': 'sym_use', 'name': a})
+
+        @rule(word=st.sampled_from(['#unmute', '#emit']), which=st.sampled_from(['unmute', 'mute', 'both']),
+              opener=st.sampled_from(['if0', 'ifdef', 'else']))
+        def idiom_mute_toggle_in_unselected_code(self, word, which, opener):
+            """#mute / <unselected branch containing #unmute and/or #mute> / bytes that must still be muted / #unmute"""
+            m = self.model
+            if m is None or len(m.frames) >= 3 or not m.active():
+                return
+            self.do({'op': 'mute'})
+            self.marker_()
+            if opener == 'if0':
+                self.do({'op': 'if', 'cond': {'form': 'cmp', 'terms': [0, 1], 'op': '=='}})
+            elif opener == 'ifdef':
+                free = [x for x in SYMS if x not in m.symbols]
+                if not free:
+                    return
+                self.do({'op': 'ifdef', 'name': free[0], 'neg': False})
+            else:
+                self.do({'op': 'if', 'cond': {'form': 'cmp', 'terms': [1, 1], 'op': '=='}})
+                self.marker_()
+                self.do({'op': 'else'})
+            if which in ('unmute', 'both'):
+                self.do({'op': 'unmute', 'word': word})
+            if which in ('mute', 'both'):
+                self.do({'op': 'mute'})
+            self.marker_()
+            self.do({'op': 'endif'})
+            self.marker_()
+            self.do({'op': 'unmute', 'word': '#unmute'})
+            self.marker_()
 
         def marker_(self):
             self.marker += 1
